@@ -128,19 +128,24 @@ def r1(run, ctx):
                   % (kw, norm_text(v) if v is not None else 'default', want),
                   construct='Popen %s' % kw)
     a0 = c.args[0] if c.args else None
-    oka = False
-    if isinstance(a0, ast.Name):
-        for a in walk_local(sp.node):
-            if isinstance(a, ast.Assign) and any(isinstance(t, ast.Name) and t.id == a0.id
-                                                 for t in a.targets) and \
-                    not any(isinstance(p2, (ast.FunctionDef,)) for p2 in [a]):
-                oka = isinstance(a.value, ast.Call) and norm_text(a.value.func) == 'self.format_args'
+    # the executed vector is exactly what format_args returned: every definition of the
+    # argument reaching the Popen call is a format_args(...) call (directly or through a local)
+    from sa.dataflow import reaching_defs
+    alts = reaching_defs(ctx, sp).expand(n_, a0) if a0 is not None else []
+    oka = bool(alts) and all(isinstance(a.expr, ast.Call) and
+                             norm_text(a.expr.func) == 'self.format_args' for a in alts)
     run.check('R1', oka, 'Popen executes the vector built by format_args', sp, n_.ast)
-    # nothing rewrites `args` between format_args and Popen
-    rew = [x for x in ctx.live_nodes(sp) if x.kind == 'stmt' and isinstance(x.ast, (ast.Assign, ast.AugAssign))
-           and any(isinstance(t, ast.Name) and isinstance(a0, ast.Name) and t.id == a0.id
-                   for t in astq.attr_targets(x.ast))]
-    run.check('R1', len(rew) == 1, 'the vector is not modified after it was built', sp, n_.ast)
+    # nothing rewrites the vector between format_args and Popen (in-place edits of the local)
+    edits = [x for x in ctx.live_nodes(sp) if isinstance(a0, ast.Name) and any(
+        isinstance(cc.func, ast.Attribute) and isinstance(cc.func.value, ast.Name) and
+        cc.func.value.id == a0.id and cc.func.attr in ('append', 'extend', 'insert', 'pop',
+                                                       'remove', 'sort', 'reverse', 'clear')
+        for cc in x.calls())]
+    edits += [x for x in ctx.live_nodes(sp) if isinstance(a0, ast.Name) and x.kind == 'stmt' and
+              isinstance(x.ast, (ast.Assign, ast.AugAssign, ast.Delete)) and any(
+                  isinstance(t, ast.Subscript) and isinstance(t.value, ast.Name) and
+                  t.value.id == a0.id for t in astq.attr_targets(x.ast))]
+    run.check('R1', not edits, 'the vector is not modified after it was built', sp, n_.ast)
 
 
 def _assigns_to(f, name):
